@@ -13,7 +13,8 @@ TraceInit == /\ tid \in 1..Len(Traces) /\ l = 1
 Ev == Traces[tid].events[l]
 IsEvent(name) == l <= Len(Traces[tid].events) /\ Ev.act = name /\ l' = l + 1 /\ UNCHANGED tid
 (* the sign of a NaN row is not observable *)
-Logged == nn' = ToFun(Ev.nn) /\ \A i \in Rows : ~nn'[i] => sg'[i] = Ev.sg[i]
+Logged == /\ nn' = ToFun(Ev.nn) /\ \A i \in Rows : ~nn'[i] => sg'[i] = Ev.sg[i]
+          /\ NoJumpAfterRJ' /\ FilledContinuesLeft' /\ NoJumpBetweenValid'     \* invariants as guards
 TRJ == IsEvent("RemoveJumps") /\ RemoveJumps /\ Logged
 TSN == IsEvent("SlerpNan") /\ SlerpNan(Ev.inplace) /\ Logged
 TraceNext == TRJ \/ TSN
